@@ -379,6 +379,36 @@ def is_uri_check(cx: Cx, ob: Ob) -> None:
                 )
             elif self_call(t, me) and t[1][2] not in ("compress", "parse_uri"):
                 ob.violate(fn.qualname, fn.where, f"is_uri is defined through `{show(t)[:60]}`, not through compress/parse_uri of its argument", detail="callee")
+            elif op(t) == "call" and op(t[1]) == "attr" and t[1][1] == arg and t[1][2] == "startswith" and len(t[2]) == 1:
+                # s.startswith(tuple(TABLE)): some registered URI prefix is a prefix of s - the same set of strings as
+                # "the longest-prefix lookup succeeds" exactly when TABLE holds every URI prefix and synonym
+                from ..rules import Prov, _strip_views
+
+                tab = _strip_views(t[2][0])
+                while op(tab) == "call" and callee_name(tab) == "keys" and op(tab[1]) == "attr":
+                    tab = tab[1][1]
+                if tab in (("attr", me, "reverse_prefix_map"), ("attr", me, "trie")):
+                    ob.site(fn, "prefix test against the full reverse table")
+                else:
+                    prov = Prov(s)
+                    prov.scan(t)
+                    keys = None
+                    if op(tab) == "comp" and tab[1] == "dict":
+                        keys = prov.fields(tab[2][1])
+                    elif op(tab) == "comp":
+                        keys = prov.fields(tab[2])
+                    if keys is None or any(r == "?" for r, _ in keys):
+                        ob.undecide(f"is_uri tests the prefixes of `{show(tab)[:60]}`")
+                    else:
+                        missing = URI_SIDE - {f for _, f in keys}
+                        if missing:
+                            ob.violate(
+                                fn.qualname,
+                                fn.where,
+                                f"is_uri tests only {sorted(f for _, f in keys)} as prefixes of its argument: URIs written with {sorted(missing)} are compressed by compress / parse_uri but is_uri says False",
+                                witness="record GO with URI-prefix synonym 'https://identifiers.org/GO:': compress('https://identifiers.org/GO:1') == 'GO:1', is_uri(...) is False",
+                                detail="is-uri-cover:" + "+".join(sorted(missing)),
+                            )
             else:
                 ob.undecide(f"is_uri returns `{show(t)[:70]}`, not a None-test")
             continue
